@@ -9,9 +9,10 @@ Record faults := MkFaults {
   f_create : list name;       (* nodes whose pod creation is rejected *)
   f_delete : list name;       (* pods whose deletion is rejected *)
   f_patch : list name;        (* pods whose label patch is rejected *)
-  f_status : bool             (* the status write is rejected *)
+  f_status : bool;            (* the status write is rejected *)
+  f_list : bool               (* a List call of [buildStrategyParams] (nodes, pods, settings) fails *)
 }.
-Definition no_faults : faults := MkFaults [] [] [] false.
+Definition no_faults : faults := MkFaults [] [] [] false false.
 
 Record ers_snapshot := MkErsSnap {
   sn_now : time;
@@ -355,7 +356,10 @@ Definition sync_body (e : eds) : outcome ers_plan :=
   | Some freq =>
       match sync_gate freq with
       | Some d => Ok (idle_plan (role_of e (r_name (sn_rs sn))) None d false)
-      | None => bind (build_ctx e freq) (fun cx => bind (strategy_of cx) (fun so => finish_sync cx so))
+      | None =>
+          (* the lists are read once the gate is open; a failing List ends the sync with an error, nothing written *)
+          if f_list (sn_faults sn) then Error 34%N
+          else bind (build_ctx e freq) (fun cx => bind (strategy_of cx) (fun so => finish_sync cx so))
       end
   end.
 
